@@ -436,6 +436,24 @@ def gen_revert(rng, n, tier):
             if r.random() < 0.15:
                 g.ops.append("reopen")
                 g.ops.append(f"get {a} {k}")
+        if g._recheck is not None and r.random() < 0.7:
+            # read-only (view) execution: between two blocks, with nothing unflushed, a "transaction" writes storage, balance and
+            # nonce and the ledger is cleared (ApplyReadonlyTransactions + Clear): every read afterwards answers what it answered before
+            # (`C07_view_execution_changes_nothing`); the pairs of op indices are handed to the monitor in a tag
+            a, k = g._recheck
+            va = r.choice(ACCTS)
+            vk = r.choice(KEYS)
+            probes = [f"get {va} {vk}", f"bal {va}", f"nonce {va}", f"get {a} {k}"]
+            pre = len(g.ops)
+            g.ops += probes
+            g.ops += [f"set {va} {vk} {r.choice(VALS)}", f"setbal {va} {r.choice([0, 3, 77])}", f"setnonce {va} {r.choice([1, 4, 9])}"]
+            if r.random() < 0.5:
+                g.ops.append(f"del {a} {k}")
+            g.ops.append("clear")
+            post = len(g.ops)
+            g.ops += probes
+            g.tags.add(f"view-pairs:{pre}:{post}:{len(probes)}")
+            g.tags.add("view-execution")
         g.dump()
         hs.append(History(g.ops, tags=g.tags | {"c07-ledger"}))
     return hs
@@ -450,6 +468,17 @@ def mon_c07(h, obs):
             continue      # C13's recorded findings (corpus witnesses of the ledger engine are replayed here too); not about reverts
         x.fp = "C07/ledger-revert/" + tail
         out.append(x)
+    # read-only execution: the probes before the view transaction and after its Clear answer alike
+    for t in h.tags:
+        if t.startswith("view-pairs:"):
+            _, pre, post, n = t.split(":")
+            pre, post, n = int(pre), int(post), int(n)
+            if post + n <= len(obs) and h.ops[pre:pre + n] == h.ops[post:post + n]:
+                for j in range(n):
+                    if obs[pre + j] != obs[post + j]:
+                        out.append(Hit("C07/view-execution-changed-a-read",
+                                       f"'{h.ops[pre + j]}' answered {obs[pre + j]} before a read-only execution and {obs[post + j]} after its Clear",
+                                       detail=h.ops[post + j]))
     # a transaction that was reverted as a whole creates no account: an address the ledger never saw before (no read, no write
     # since `open`) that was written only inside a reverted snapshot is not among the accounts a flush reports as changed.
     # (An account that WAS read before keeps an empty dirty copy after such a revert: the recorded finding
